@@ -19,6 +19,7 @@ package batchprocessor
 import (
 	"context"
 	"fmt"
+	"runtime"
 	"sort"
 	"strings"
 	"sync"
@@ -982,6 +983,168 @@ func vValidateCases(out *vOut, rng *vRand, n int) {
 	}
 }
 
+// ---- (6) Shutdown right behind the last Consume ------------------------------------------------------------
+// "Everything accepted before shutdown began is emitted by the time Shutdown returns": the whole life of a
+// processor — Start, the Consume calls, Shutdown, a snapshot of the sink — runs in ONE goroutine without any
+// wait in between, so Shutdown meets shards that were created a moment ago, items still in channels, goroutines
+// that have not been scheduled yet.  Half of the runs execute on a single P (runtime.GOMAXPROCS(1)): there no
+// shard goroutine runs before Shutdown blocks, which makes that interleaving deterministic.  The snapshot is taken
+// in the same goroutine immediately after Shutdown returned.  The runs are ordinary correspondence cases as well
+// (the model's result does not depend on when a shard processes its channel).
+func vImmediateCases[T any, P any](t *testing.T, out *vOut, rng *vRand, sg vSignal[T, P], n int) {
+	for c := 0; c < n; c++ {
+		if vStuckN.Load() >= 5 {
+			out.Stat(sg.name+".immediate_skipped_after_stuck", 1)
+			continue
+		}
+		oneP := c%2 == 0
+		timeoutReal, timeoutTerm := time.Duration(0), 0
+		if rng.Intn(3) != 0 {
+			timeoutReal, timeoutTerm = vLongTimeout, 1000
+		}
+		vc := vGenCfg(rng, timeoutReal, timeoutTerm)
+		for try := 0; try < 10 && len(vc.keysLow) == 0 && c%4 != 3; try++ { // three runs in four with metadata keys
+			vc = vGenCfg(rng, timeoutReal, timeoutTerm)
+		}
+		g := &vGen{r: rng}
+		fam := rng.Intn(len(vValFamilies))
+		type one struct {
+			md     map[string][]string
+			mdTerm string
+			p      P
+			tp     string
+			tagged []string
+			data   T
+		}
+		var script []one
+		var stTerms []string
+		for i := 0; i < 1+rng.Intn(6); i++ {
+			md, mdTerm := vGenMD(rng, fam)
+			p := sg.gen(g)
+			if rng.Intn(3) == 0 {
+				p = sg.mk(g, 1+rng.Intn(12))
+			}
+			script = append(script, one{md: md, mdTerm: mdTerm, p: p, tp: vTupleOf(md, vc.keysLow), tagged: sg.items(p), data: sg.build(p)})
+			stTerms = append(stTerms, "(SConsume "+mdTerm+" "+sg.term(p)+")")
+		}
+		sink := &vSink{perTuple: map[string]int{}}
+		bp, consume, err := sg.newProc(vc.cfg, func(ctx context.Context, d T) error {
+			ir := sg.read(d)
+			sink.add(vExport{extra: vCtxExtra(ctx, vc.keysLow), tuple: vCtxTuple(ctx, vc.keysLow), payload: sg.term(ir), items: sg.items(ir), at: time.Now()})
+			return nil
+		})
+		if err != nil {
+			t.Fatalf("cannot create the processor: %v", err)
+		}
+		errs := make([]error, len(script))
+		var snap []vExport
+		left := 0
+		done := make(chan struct{})
+		prev := 0
+		if oneP {
+			prev = runtime.GOMAXPROCS(1)
+		}
+		go func() {
+			defer close(done)
+			_ = bp.Start(context.Background(), componenttest.NewNopHost())
+			for i, st := range script {
+				ctx := client.NewContext(context.Background(), client.Info{Metadata: client.NewMetadata(st.md)})
+				errs[i] = consume(ctx, st.data)
+			}
+			_ = bp.Shutdown(context.Background())
+			sink.mu.Lock()
+			snap = append([]vExport{}, sink.exports...)
+			sink.mu.Unlock()
+			for _, sh := range vShards(bp) {
+				left += len(sh.newItem)
+			}
+		}()
+		stuck := false
+		select {
+		case <-done:
+		case <-time.After(vDL(60 * time.Second)):
+			stuck = true
+			vStuck()
+		}
+		if oneP {
+			runtime.GOMAXPROCS(prev)
+		}
+		var results, known, acceptedTagged []string
+		var failures [][2]string
+		fail := func(kind, detail string) { failures = append(failures, [2]string{kind, detail}) }
+		if stuck {
+			out.Oracle("stuck", "(CValidate "+vc.term+" 0)%N", "Start + Consume calls + Shutdown in one goroutine did not finish within 60 s")
+			continue
+		}
+		limit := int(vc.cfg.MetadataCardinalityLimit)
+		for i, st := range script {
+			isKnown := false
+			for _, k := range known {
+				isKnown = isKnown || k == st.tp
+			}
+			wantRefuse := len(vc.keysLow) > 0 && limit > 0 && !isKnown && len(known) >= limit
+			if errs[i] != nil {
+				results = append(results, "1")
+				if !wantRefuse {
+					fail("cardinality", fmt.Sprintf("arrival with tuple %s refused (%v) although %d of %d groups exist", st.tp, errs[i], len(known), limit))
+				}
+				continue
+			}
+			results = append(results, "0")
+			if wantRefuse {
+				fail("cardinality", fmt.Sprintf("arrival with new tuple %s accepted beyond the cardinality limit %d", st.tp, limit))
+			}
+			if !isKnown {
+				known = append(known, st.tp)
+			}
+			for _, it := range st.tagged {
+				acceptedTagged = append(acceptedTagged, st.tp+"|"+it)
+			}
+		}
+		var order, emittedTagged []string
+		groups := map[string][]string{}
+		for _, e := range snap {
+			if _, ok := groups[e.tuple]; !ok {
+				order = append(order, e.tuple)
+			}
+			groups[e.tuple] = append(groups[e.tuple], e.payload)
+			for _, it := range e.items {
+				emittedTagged = append(emittedTagged, e.tuple+"|"+it)
+			}
+			if m := int(vc.cfg.SendBatchMaxSize); m > 0 && len(e.items) > m {
+				fail("max-size", fmt.Sprintf("a batch of %d items was emitted with send_batch_max_size %d", len(e.items), m))
+			}
+			if e.extra != "" {
+				fail("export-metadata", "export context carries unconfigured keys: "+e.extra)
+			}
+		}
+		var gs []string
+		for _, tp := range order {
+			gs = append(gs, "("+tp+","+vList(groups[tp])+")")
+		}
+		term := sg.runCase(vc.term, vList(stTerms), "("+vList(results)+","+vList(gs)+")")
+		out.Case(len(snap) >= 2, term)
+		out.Stat(sg.name+".immediate_runs", 1)
+		if oneP {
+			out.Stat(sg.name+".immediate_runs_single_P", 1)
+		}
+		out.Stat(fmt.Sprintf("%s.immediate_groups_%d", sg.name, len(known)), 1)
+		sort.Strings(emittedTagged)
+		sort.Strings(acceptedTagged)
+		if !vEqStrings(emittedTagged, acceptedTagged) {
+			// did the missing items arrive after Shutdown had returned?
+			late := vWait(func() bool { return sink.totalCount() >= len(acceptedTagged) }, 300*time.Millisecond)
+			fail("conservation", fmt.Sprintf("at the moment Shutdown returned (single P: %v; %d groups, %d payloads): %s; %d payload(s) still in shard channels; emitted after Shutdown had returned: %v",
+				oneP, len(known), len(script), vDiff(emittedTagged, acceptedTagged), left, late))
+		} else if left != 0 {
+			fail("conservation", fmt.Sprintf("%d payload(s) still in shard channels when Shutdown returned", left))
+		}
+		for _, f := range failures {
+			out.Oracle(f[0], term, f[1])
+		}
+	}
+}
+
 func TestVerifC17(t *testing.T) {
 	out := vOpen()
 	defer out.Close()
@@ -1000,6 +1163,10 @@ func TestVerifC17(t *testing.T) {
 	vTimeoutCases(t, out, vNewRand(1731), lg, vBudget(6, 4))
 	vTimeoutCases(t, out, vNewRand(1732), tr, vBudget(6, 4))
 	vTimeoutCases(t, out, vNewRand(1733), mt, vBudget(6, 4))
+
+	vImmediateCases(t, out, vNewRand(1751), lg, vBudget(40, 10))
+	vImmediateCases(t, out, vNewRand(1752), tr, vBudget(40, 10))
+	vImmediateCases(t, out, vNewRand(1753), mt, vBudget(40, 10))
 
 	vConcurrentCases(t, out, vNewRand(1741), lg, vBudget(6, 20))
 	vConcurrentCases(t, out, vNewRand(1742), tr, vBudget(6, 20))
